@@ -31,6 +31,10 @@ def setup(J):
         # (b) out-ports nobody consumes are drained automatically
         for g, drop in (("g7", "r"), ("g4", "q"), ("g6b", "j"), ("g3", "q")):
             jobs.append(J.with_delay_fallback(J.wf("C16", g, 2, 1, 2, "func", oracles=["nohang", "clean", "c04", "c05"], tier=tier, events_dep=False, drop_proc=drop, id=f"C16-dangling-{g}-minus-{drop}")))
+        # a dead-end PARAMETER out-port whose owner also feeds the process that ends the (dead-end) file stream:
+        # both dead ends must be drained at the same time (streams longer than the buffers)
+        for i in ((2, 3) if q else (2, 3, 4)):
+            jobs.append(J.with_delay_fallback(J.wf("C16", "g8h", i, 1, 2, "func", oracles=["nohang", "clean", "c04", "c05"], tier=tier, events_dep=False, id=f"C16-dangling-g8h-i{i}")))
         # (c) every non-empty subset of processes as RunTo targets, by name / regex / process value
         for g, (procs, _) in GRAPHS.items():
             if q and g in ("g6",):
